@@ -76,7 +76,7 @@ Fixpoint replace_loop (fuel : nat) (obj : astr) (old : str) (r : repl) (count : 
         do lft <- add (getitem_slice obj None (Some (Z.of_nat i))) rv;
         do obj' <- add lft (getitem_slice obj (Some (Z.of_nat (i + length old))) None);
         let count' := if (0 <? count)%Z then (count - 1)%Z else count in
-        let start := i + repl_len r + (if is_nil old then 1 else 0) in
+        let start := i + length (base rv) + (if is_nil old then 1 else 0) in      (* as repaired, F27 *)
         replace_loop f obj' old r count' (find_from (base obj') old start) nid
     end
   end.
